@@ -1082,8 +1082,14 @@ class Converter:
                 self._fail(
                     stmt, "Expected same number of elements on lhs and rhs of assignments."
                 )
-            for p, r in zip(lhs.elts, rhs.elts):
-                assign(p, r)
+            if all(isinstance(p, ast.Name) for p in lhs.elts):
+                # Python evaluates the whole right-hand side before binding any target.
+                translated = [self._translate_expr(r, p.id) for p, r in zip(lhs.elts, rhs.elts)]
+                for p, t in zip(lhs.elts, translated):
+                    self._bind(p.id, values.SymbolValue(t, self._source_of(p)))
+            else:
+                for p, r in zip(lhs.elts, rhs.elts):
+                    assign(p, r)
         else:
             assign(lhs, rhs)
 
